@@ -794,14 +794,15 @@ class DirectProxyAccessor(WritableAccessor[T_co], PhysicalAccessor[T_co]):
 
         if value._model is not elmlist._model:
             raise ValueError("Cannot move elements between models")
+        if index < 0:
+            index = max(index + len(elmlist._elements), 0)
+        index = min(index, len(elmlist._elements))
         try:
             indexof = elmlist._parent._element.index
             if index > 0:
                 parent_index = indexof(elmlist._elements[index - 1]) + 1
-            elif index < -1:
-                parent_index = indexof(elmlist._elements[index + 1]) - 1
             else:
-                parent_index = index
+                parent_index = 0
         except ValueError:
             parent_index = len(elmlist._parent._element)
         loader = elmlist._model._loader
@@ -1105,6 +1106,8 @@ class LinkAccessor(WritableAccessor[T_co], PhysicalAccessor[T_co]):
         if isinstance(value, NewObject):
             raise NotImplementedError("Cannot insert new objects yet")
 
+        if index < 0:
+            index = max(index + len(elmlist), 0)
         self.__create_link(
             elmlist._parent,
             value,
@@ -1875,14 +1878,15 @@ class RoleTagAccessor(WritableAccessor, PhysicalAccessor):
             raise NotImplementedError("Cannot insert new objects yet")
         if value._model is not elmlist._model:
             raise ValueError("Cannot move elements between models")
+        if index < 0:
+            index = max(index + len(elmlist._elements), 0)
+        index = min(index, len(elmlist._elements))
         try:
             indexof = elmlist._parent._element.index
             if index > 0:
                 parent_index = indexof(elmlist._elements[index - 1]) + 1
-            elif index < -1:
-                parent_index = indexof(elmlist._elements[index + 1]) - 1
             else:
-                parent_index = index
+                parent_index = 0
         except ValueError:
             parent_index = len(elmlist._parent._element)
         loader = elmlist._model._loader
